@@ -53,23 +53,8 @@ def veto_sets(world, model):
 
 def one_plan(world, cb, init):
     read = world["read"]
-    ops = gen.prologue_ops(read)
-    if read["ep"] == "readFile":
-        op = {"op": "readFile", "o": 0, "path": read["path"], "delim": "=", "comment": "#", "init": init, "tag": "read"}
-        if cb is not None:
-            op["cb"] = cb
-        ops.append(op)
-    elif read["ep"] == "readConfig":
-        ops.append({"op": "newOpts", "o": 0, "options": gen.option_string(read), "tag": "new"})
-        ops.append(dict(gen.read_op(read, o=0, cb=cb, in_slot=0), tag="read"))
-    else:
-        ops.append(dict(gen.read_op(read, o=0, cb=cb, init=init), tag="read"))
-    if read["ep"] == "readDirsHistory":
-        ops.append({"op": "dumpHistory", "h": 0, "ext": False, "tag": "dump"})
-        ops.append({"op": "freeHistory", "h": 0})
-    else:
-        ops.append({"op": "dump", "k": 0, "ext": False, "tag": "dump"})
-        ops.append({"op": "free", "k": 0})
+    ops = gen.prologue_ops(read) if read["ep"] != "readFile" else []
+    ops += gen.layered_read_ops(read, cb=cb, init=init)
     return {"cfg": world["cfg"], "tree": gen.tree_plan(world["nodes"]), "ops": ops}
 
 
